@@ -44,7 +44,9 @@ RULE_ADDED = (
               'ed UI version or a wrong echo: no PIN byte, no unlock. '
               ' '
               'Round 11: a fifth of the Ledger configurations run in legacy (--version-one) mod'
-              'e. ')
+              'e. '
+              ' '
+              'Round 12: version components of two and three digits (10, 40, 100). ')
 RULE = RULE + " " + RULE_ADDED.strip()
 ASSUMPTIONS = [
     "simulated device + fake transports trusted",
@@ -70,14 +72,17 @@ def supported(v):
     return v[0] == MGR[0] and (v[1] < MGR[1] or (v[1] == MGR[1] and v[2] <= MGR[2]))
 
 
-VERSION_GRID = [(a, b, c) for a in (4, 5, 6) for b in (0, 1, 3, 4, 5, 6, 255)
-                for c in (0, 1, 2, 255)]
+# (components of one, two and three digits: 10, 40, 100 read as text or as decimals are
+# other numbers than as integers)
+VERSION_GRID = [(a, b, c) for a in (4, 5, 6, 50) for b in (0, 1, 3, 4, 5, 6, 10, 40, 255)
+                for c in (0, 1, 2, 9, 10, 11, 100, 255)]
 MODES = ["boot", "signer", "uihb", "unknown", "other", "error"]
 ONB = [True, False, "error"]
 RETRIES = [0, 1, 2, 3, 255]
 POST = ["signer", "boot", "uihb", "unknown"]
 PLATFORMS = ["ledger", "sgx", "tcp"]
-VERS_SMALL = [(5, 4, 1), (5, 4, 2), (5, 3, 9), (4, 4, 1), (6, 0, 0), (5, 5, 0)]
+VERS_SMALL = [(5, 4, 1), (5, 4, 2), (5, 3, 9), (4, 4, 1), (6, 0, 0), (5, 5, 0), (5, 4, 10),
+              (5, 4, 100), (5, 3, 10), (5, 40, 0)]
 
 
 def mode_byte(name):
